@@ -1,12 +1,22 @@
 (* C20 - coupling-graph and qudit-permutation utilities match their definitions.
-   Only statements closed by `exact`; proofs live in map/GraphThm.v. *)
-From Coq Require Import List Arith.
+   Statements only, each closed by `exact <lemma>`; the models are map/Graph.v,
+   map/GraphFloyd.v, map/GraphExt.v, map/Kron.v (no proofs there) and the proofs are in
+   map/Graph*Thm.v, map/Kron*Thm.v.  Hypotheses used throughout (map/GraphThm.v):
+     wf g        every neighbour label is < length g
+     sym g       adjacency lists are symmetric (undirected graph)
+     loopfree g  no vertex is its own neighbour
+     nodup_adj g neighbour "sets" have no repeated element
+   C20_ctor_ok shows that every graph the CouplingGraph constructor accepts satisfies all
+   four, so they are not extra assumptions about the code. *)
+From Coq Require Import List Arith ZArith Sorted Lia.
 Import ListNotations.
-From BQ Require Import map.Graph map.GraphThm.
+From BQ Require Import map.Graph map.GraphThm map.GraphPermThm map.GraphFloyd map.GraphFloydThm
+  map.GraphFcwThm map.GraphSubThm map.GraphSptThm map.GraphExt map.GraphCtorThm map.GraphIsoThm
+  map.GraphEmbedThm map.GraphMiscThm map.Kron map.KronThm map.KronEmbedThm map.KronPermGenThm.
 
-(* CouplingGraph.is_fully_connected answers, for every non-empty graph whose
-   neighbour lists stay in range, and answers `true` exactly when every vertex is
-   reachable from vertex 0 (the textbook definition for an undirected graph). *)
+(* ==== CouplingGraph.is_fully_connected ================================================
+   Answers for every non-empty well-formed graph, and answers `true` exactly when every
+   vertex is reachable from vertex 0 (textbook connectivity of an undirected graph). *)
 Theorem C20_connected_iff : forall g,
   wf g -> length g <> 0 ->
   exists b, is_fully_connected g = Some b /\ (b = true <-> allreach g).
@@ -15,9 +25,410 @@ Proof. exact is_fully_connected_spec. Qed.
 Theorem C20_connected_empty_raises : is_fully_connected [] = None.
 Proof. exact is_fully_connected_empty. Qed.
 
-(* non-vacuity: a concrete graph meets the hypotheses, both answers occur *)
 Example C20_connected_nonvacuous :
   wf [[1];[0;2];[1]] /\ is_fully_connected [[1];[0;2];[1]] = Some true
   /\ is_fully_connected [[1];[0];[]] = Some false.
 Proof. split; [|split; reflexivity].
   intros q x. destruct q as [|[|[|q]]]; simpl; intuition (subst; auto with arith); destruct q; contradiction. Qed.
+
+(* ==== PermutationMatrix.from_qudit_location ===========================================
+   For every number of qudits and every duplicate-free in-range location: the swap loop
+   (which reads `current_perm` live, as Python's enumerate does) ends with the identity
+   arrangement; the product of the applied swaps - applied in reverse recording order
+   because UnitaryBuilder.apply_left pre-multiplies in circuit order - carries the content
+   of wire location[i] to position i, and more generally is the inverse of the completed
+   arrangement (location followed by the missing qudits in ascending order); every swap is
+   a genuine in-range transposition.  The statement is about wires, hence any radix. *)
+Theorem C20_perm_location : forall n loc,
+  NoDup loc -> (forall x, In x loc -> x < n) ->
+  let cur := fst (perm_loop n loc) in
+  let swaps := snd (perm_loop n loc) in
+  cur = seq 0 n
+  /\ (forall i, i < length loc -> push_wire swaps (nth i loc 0) = i)
+  /\ (forall i, i < n -> push_wire swaps (nth i (complete_perm n loc) 0) = i)
+  /\ (forall s, In s swaps -> fst s < snd s /\ snd s < n).
+Proof. exact perm_location. Qed.
+
+(* the built MATRIX - identity builder, apply_left(swap, (index, pos)) per recorded swap,
+   with the mixed-radix index arithmetic of Kron.v - is the documented permutation matrix
+   (column with digits d has its 1 in the row whose digit i is d[full[i]], full = completed
+   arrangement), for EVERY number of qudits and EVERY radix *)
+Theorem C20_perm_location_matrix : forall n radix loc,
+  0 < radix -> NoDup loc -> (forall x, In x loc -> x < n) ->
+  from_qudit_location n radix loc = perm_matrix n radix (complete_perm n loc).
+Proof. exact from_qudit_location_matrix. Qed.
+
+(* the mutant apply_right builds a different matrix (the inverse permutation) *)
+Theorem C20_perm_location_apply_right_refuted :
+  from_qudit_location_right 3 2 [1; 2; 0] <> perm_matrix 3 2 (complete_perm 3 [1; 2; 0]).
+Proof. exact apply_right_mutant_differs. Qed.
+
+Example C20_perm_location_nonvacuous :
+  NoDup [2; 0] /\ (forall x, In x [2; 0] -> x < 4)
+  /\ perm_loop 4 [2; 0] = ([0; 1; 2; 3], [(0, 1); (1, 2)])
+  /\ map (push_wire (snd (perm_loop 4 [2; 0]))) [2; 0; 1; 3] = [0; 1; 2; 3].
+Proof. split; [repeat constructor; simpl; intuition congruence|].
+  split; [simpl; intros x [<-|[<-|[]]]; auto with arith|]. split; reflexivity. Qed.
+
+(* ==== CouplingGraph.all_pairs_shortest_path (Floyd-Warshall, in place) ==================
+   `shape n D0`: an n x n matrix of weights (None = inf, Some w = natural weight; the
+   harness uses integer weights so that float addition is exact).  `wt D0 i l j` is the
+   weight of the walk i -> l_1 -> ... -> l_m -> j (m >= 0, i.e. at least one edge);
+   `is_min_walk D0 k i j v`: v is the minimum of wt over all such walks whose intermediate
+   vertices are < k (None when there is none).
+   C20_floyd_invariant is the classical invariant for the k-loop of the code AS WRITTEN
+   (k outer, then i, then j, each entry overwritten in place); C20_floyd the result;
+   C20_floyd_inplace_is_textbook: the in-place sweep equals the textbook recurrence that
+   computes D_{k+1} from the old D_k.  Diagonal convention of the code, stated exactly:
+   there is NO zero diagonal - D[i][i] is the least weight of a closed walk with >= 1 edge
+   through i (C20_floyd with i = j); for a unit-weight undirected loop-free graph that is
+   2 when i has a neighbour and inf otherwise (C20_floyd_diagonal).  C20_floyd_applies:
+   the matrix built by the constructor (default / remote / override weights) has the
+   required shape. *)
+Theorem C20_floyd_invariant : forall n D0 k, shape n D0 -> k <= n -> forall i j, i < n -> j < n ->
+  is_min_walk D0 k i j (mget (fold_left (fw_k n) (seq 0 k) D0) i j).
+Proof. exact floyd_prefix_spec. Qed.
+
+Theorem C20_floyd : forall n D0, shape n D0 -> forall i j, i < n -> j < n ->
+  is_min_walk D0 n i j (mget (floyd n D0) i j).
+Proof. exact floyd_spec. Qed.
+
+Theorem C20_floyd_all_walks : forall n D0, shape n D0 -> forall i j, i < n -> j < n ->
+  forall l, wle (mget (floyd n D0) i j) (wt D0 i l j).
+Proof. exact floyd_all_walks. Qed.
+
+Theorem C20_floyd_inplace_is_textbook : forall n D0, shape n D0 -> floyd n D0 = floyd_ref n D0.
+Proof. exact floyd_inplace_eq_ref. Qed.
+
+Theorem C20_floyd_shape : forall n D0, shape n D0 -> shape n (floyd n D0).
+Proof. exact floyd_shape. Qed.
+
+Theorem C20_floyd_applies : forall n es remote dw rw ov, shape n (mk_mat n es remote dw rw ov).
+Proof. exact mk_mat_shape. Qed.
+
+Theorem C20_floyd_diagonal : forall g i, wf g -> sym g -> loopfree g -> i < length g ->
+  mget (floyd (length g) (unit_mat g)) i i = (match nbrs g i with [] => None | _ => Some 2 end).
+Proof. exact floyd_diag_unit. Qed.
+
+(* the mutant loop order i, j, k is not Floyd-Warshall (model-level witness; the harness
+   finds the same kind of witness on a mutated implementation) *)
+Theorem C20_floyd_ijk_refuted : exists D0, shape 4 D0 /\ fw_ijk 4 D0 <> floyd 4 D0.
+Proof. exact fw_ijk_wrong. Qed.
+
+Example C20_floyd_nonvacuous :
+  shape 3 (mk_mat 3 [(0,1);(1,2);(0,2)] [(0,2)] 1 100 [((1,2),5)])
+  /\ floyd 3 (mk_mat 3 [(0,1);(1,2);(0,2)] [(0,2)] 1 100 [((1,2),5)])
+     = [[Some 2; Some 1; Some 6]; [Some 1; Some 2; Some 5]; [Some 6; Some 5; Some 10]].
+Proof. split; [split; [reflexivity|repeat constructor]|reflexivity]. Qed.
+
+(* ==== CouplingGraph.get_shortest_path_tree (O(n^2) Dijkstra with unit steps) =============
+   For every well-formed graph (directed adjacency lists suffice) and in-range source:
+   either n paths are returned, path t being a path of g from the source to t whose hop
+   count is minimal among ALL paths from the source to t (= the BFS distance); or the code
+   raises RuntimeError (None) and then some vertex is unreachable.  "Some" is exactly
+   "every vertex reachable".  An out-of-range source raises (IndexError). *)
+Theorem C20_spt : forall g src, wf g -> src < length g ->
+  match shortest_path_tree g src with
+  | Some paths =>
+      length paths = length g /\
+      forall t, t < length g ->
+        let p := nth t paths [] in
+        path_from_to g src t p /\ (forall q, path_from_to g src t q -> hops p <= hops q)
+  | None => exists t, t < length g /\ ~ reach g src t
+  end.
+Proof. exact spt_spec. Qed.
+
+Theorem C20_spt_some_iff_reachable : forall g src, wf g -> src < length g ->
+  ((exists paths, shortest_path_tree g src = Some paths) <-> forall t, t < length g -> reach g src t).
+Proof. exact spt_some_iff. Qed.
+
+Theorem C20_spt_source_out_of_range : forall g src, length g <= src -> shortest_path_tree g src = None.
+Proof. exact spt_out_of_range. Qed.
+
+Example C20_spt_nonvacuous :
+  shortest_path_tree [[1;2];[0;3];[0;3];[1;2]] 0 = Some [[0];[0;1];[0;2];[0;1;3]]
+  /\ shortest_path_tree [[1];[0];[]] 0 = None
+  /\ path_from_to [[1;2];[0;3];[0;3];[1;2]] 0 3 [0;1;3].
+Proof. split; [reflexivity|split; [reflexivity|]]. repeat split; simpl; auto. Qed.
+
+(* ==== CouplingGraph.is_fully_connected_without ===========================================
+   In contract (>= 2 vertices, qudit in range): always answers, and `true` iff every other
+   vertex is reachable from the start vertex (0, or 1 when qudit = 0) avoiding the qudit,
+   i.e. iff g - qudit is connected.  Error and out-of-contract cases follow. *)
+Theorem C20_connected_without_iff : forall g q,
+  wf g -> 2 <= length g -> q < length g ->
+  exists b, is_fully_connected_without g q = Some b /\ (b = true <-> allreach_wo g q).
+Proof. exact is_fully_connected_without_spec. Qed.
+
+(* IndexError: the start vertex does not exist (empty graph; one vertex and qudit 0) *)
+Theorem C20_connected_without_raises : forall g q,
+  length g <= start_wo q -> is_fully_connected_without g q = None.
+Proof. exact is_fully_connected_without_raises. Qed.
+
+Theorem C20_connected_without_single : forall q, q <> 0 -> is_fully_connected_without [[]] q = Some false.
+Proof. exact is_fully_connected_without_single. Qed.
+
+(* qudit >= num_qudits is not rejected and the answer is not connectivity: two connected
+   graphs, two answers *)
+Theorem C20_connected_without_out_of_range :
+  is_fully_connected_without [[1];[0;2];[1]] 5 = Some true /\
+  is_fully_connected_without [[1;2;3];[0];[0];[0]] 7 = Some false.
+Proof. exact is_fully_connected_without_out_of_range. Qed.
+
+Example C20_connected_without_nonvacuous :
+  is_fully_connected_without [[1];[0;2];[1]] 1 = Some false      (* removing the middle of a path *)
+  /\ is_fully_connected_without [[1];[0;2];[1]] 0 = Some true
+  /\ is_fully_connected_without [[1;2];[0;2];[0;1]] 1 = Some true.
+Proof. repeat split; reflexivity. Qed.
+
+(* ==== CouplingGraph.get_subgraphs_of_size / _location_search ==============================
+   Exactly the connected k-subsets (each as a strictly increasing list, each once):
+   soundness AND completeness, for every undirected well-formed graph and every k. *)
+Theorem C20_subgraphs_complete_sound : forall g k res,
+  wf g -> sym g -> subgraphs_of_size g k = Some res ->
+  forall l, In l res <-> conn_k_subset g k l.
+Proof. exact subgraphs_spec. Qed.
+
+Theorem C20_subgraphs_nodup : forall g k res, subgraphs_of_size g k = Some res -> NoDup res.
+Proof. exact subgraphs_nodup. Qed.
+
+Theorem C20_subgraphs_errors : forall g k,
+  subgraphs_of_size g k = None <-> (k = 0 \/ length g < k).       (* ValueError *)
+Proof. exact subgraphs_error. Qed.
+
+Example C20_subgraphs_nonvacuous :
+  subgraphs_of_size [[1];[0;2];[1];[]] 2 = Some [[1;2];[0;1]]
+  /\ subgraphs_of_size [[1];[0;2];[1];[]] 3 = Some [[0;1;2]]
+  /\ subgraphs_of_size [[1];[0;2];[1];[]] 5 = None.
+Proof. repeat split; reflexivity. Qed.
+
+(* ==== CouplingGraph.__init__ and the topology constructors =================================
+   Whatever the constructor accepts is a well-formed undirected loop-free graph whose
+   adjacency is exactly the given edge set; its error cases are characterised. *)
+Theorem C20_ctor_ok : forall es on g, mk_graph es on = Ok g ->
+  wf g /\ sym g /\ loopfree g /\ nodup_adj g
+  /\ length g = (match on with Some n => n | None => infer_n es end)
+  /\ forall x y, In x (nbrs g y) <-> (In (x, y) es \/ In (y, x) es).
+Proof. exact mk_graph_ok. Qed.
+
+Theorem C20_ctor_type_error : forall es on, mk_graph es on = TypeError <-> exists a, In (a, a) es.
+Proof. exact mk_graph_type_error. Qed.
+
+Theorem C20_ctor_value_error : forall es on, mk_graph es on = ValueError <->
+  ((forall a, ~ In (a, a) es) /\ exists n, on = Some n /\ n < infer_n es).
+Proof. exact mk_graph_value_error. Qed.
+
+(* linear / ring / star / all_to_all on n >= 2 vertices, grid on r x c >= 2 vertices: the
+   result has exactly n (r*c) vertices and the textbook adjacency.  grid: vertex (row i,
+   column j) is i*c + j, with an edge to (i, j+1) and to (i+1, j) - no wrap at the row end. *)
+Theorem C20_topology_linear : forall n, 2 <= n -> exists g, linear n = Ok g /\ length g = n /\
+  forall x y, In x (nbrs g y) <-> ((x = S y \/ y = S x) /\ x < n /\ y < n).
+Proof. exact linear_graph. Qed.
+
+Theorem C20_topology_ring : forall n, 2 <= n -> exists g, ring n = Ok g /\ length g = n /\
+  forall x y, In x (nbrs g y) <->
+    (((x = S y \/ y = S x) /\ x < n /\ y < n) \/ (x = 0 /\ y = n - 1) \/ (y = 0 /\ x = n - 1)).
+Proof. exact ring_graph. Qed.
+
+Theorem C20_topology_star : forall n, 2 <= n -> exists g, star n = Ok g /\ length g = n /\
+  forall x y, In x (nbrs g y) <-> ((x = 0 /\ 1 <= y /\ y < n) \/ (y = 0 /\ 1 <= x /\ x < n)).
+Proof. exact star_graph. Qed.
+
+Theorem C20_topology_all_to_all : forall n, 2 <= n -> exists g, all_to_all n = Ok g /\ length g = n /\
+  forall x y, In x (nbrs g y) <-> (x <> y /\ x < n /\ y < n).
+Proof. exact all_to_all_graph. Qed.
+
+Theorem C20_topology_grid : forall r c, 2 <= r * c -> exists g, grid r c = Ok g /\ length g = r * c /\
+  forall x y, In x (nbrs g y) <-> (In (x, y) (grid_edges r c) \/ In (y, x) (grid_edges r c)).
+Proof. exact grid_graph. Qed.
+
+Theorem C20_topology_grid_edges : forall r c a b, In (a, b) (grid_edges r c) <->
+  exists i j, i < r /\ j < c /\ a = i * c + j /\
+              ((S j < c /\ b = i * c + S j) \/ (S i < r /\ b = S i * c + j)).
+Proof. exact grid_edges_spec. Qed.
+
+(* corner cases as the code has them: the size is inferred from the largest label, so
+   n = 0 and n = 1 both give ONE isolated vertex; ring 1 asks for the self-loop (0,0) and
+   raises TypeError; ring 2 is the single edge *)
+Theorem C20_topology_small :
+  linear 0 = Ok [[]] /\ linear 1 = Ok [[]] /\ star 0 = Ok [[]] /\ star 1 = Ok [[]] /\
+  all_to_all 0 = Ok [[]] /\ all_to_all 1 = Ok [[]] /\ ring 1 = TypeError /\ grid 1 1 = Ok [[]] /\
+  ring 2 = Ok [[1]; [0]] /\ linear 2 = Ok [[1]; [0]].
+Proof. exact small_topologies. Qed.
+
+Example C20_topology_nonvacuous :
+  ring 4 = Ok [[3; 1]; [2; 0]; [3; 1]; [0; 2]] /\ grid 2 2 = Ok [[2; 1]; [3; 0]; [3; 0]; [2; 1]]
+  /\ mk_graph [(0, 1); (1, 1)] None = TypeError /\ mk_graph [(0, 3)] (Some 2) = ValueError.
+Proof. repeat split; reflexivity. Qed.
+
+(* ==== CouplingGraph.get_subgraph / get_induced_subgraph =======================================
+   For a duplicate-free, non-empty, in-range location and a renumbering that is a bijection
+   onto [0, len(location)) (the default one always is): the call succeeds and the
+   renumbering is an isomorphism from the sub-graph induced by the location onto the
+   returned graph (every returned edge comes from an induced edge and vice versa).
+   Renumberings need not be order preserving.  Every input the code rejects is rejected. *)
+Theorem C20_subgraph_iso : forall g loc ren,
+  wf g -> sym g -> loopfree g -> NoDup loc -> loc <> [] -> (forall q, In q loc -> q < length g) ->
+  bij_ren loc (ren_of loc ren) ->
+  exists es, get_subgraph g loc ren = Some es /\
+    (forall u v a b, In u loc -> In v loc ->
+       assoc u (ren_of loc ren) = Some a -> assoc v (ren_of loc ren) = Some b ->
+       (In v (nbrs g u) <-> In (norm_edge (a, b)) es)) /\
+    (forall e, In e es -> fst e < snd e /\ snd e < length loc /\
+       exists u v, In u loc /\ In v loc /\ In v (nbrs g u) /\
+                   assoc u (ren_of loc ren) = Some (fst e) /\ assoc v (ren_of loc ren) = Some (snd e)).
+Proof. exact get_subgraph_iso. Qed.
+
+Theorem C20_subgraph_default_renumbering : forall loc, NoDup loc -> bij_ren loc (ren_of loc None).
+Proof. exact default_ren_bij. Qed.
+
+Theorem C20_subgraph_rejects : forall g loc ren,
+  (~ NoDup loc \/ (exists q, In q loc /\ length g <= q) \/ loc = [] \/
+   length (ren_of loc ren) <> length loc \/ ~ NoDup (map fst (ren_of loc ren)) \/
+   (exists k, In k (map fst (ren_of loc ren)) /\ ~ In k loc)) ->
+  get_subgraph g loc ren = None.
+Proof. exact get_subgraph_rejects. Qed.
+
+(* known finding C20-F5: the permutation test only compares min and max of the values, so
+   a non-injective renumbering is accepted and merges vertices *)
+Theorem C20_subgraph_weak_check_refuted :
+  get_subgraph [[2]; []; [0]] [0; 1; 2] (Some [(0, 0); (1, 0); (2, 2)]) = Some [(0, 2); (0, 2)].
+Proof. exact get_subgraph_weak_permutation_check. Qed.
+
+Theorem C20_induced_subgraph : forall g loc es, sym g -> induced_subgraph g loc = Ok es ->
+  NoDup loc /\ 2 <= length loc /\
+  forall a b, In (a, b) es <-> (a < b /\ In a loc /\ In b loc /\ In b (nbrs g a)).
+Proof. exact induced_subgraph_spec. Qed.
+
+Theorem C20_induced_subgraph_errors : forall g loc,
+  (~ NoDup loc \/ length loc < 2) <-> induced_subgraph g loc = ValueError.
+Proof. exact induced_subgraph_errors. Qed.
+
+Example C20_subgraph_nonvacuous :
+  bij_ren [3; 1; 2] [(1, 2); (2, 0); (3, 1)]
+  /\ get_subgraph [[1]; [0; 2]; [1; 3]; [2]] [3; 1; 2] (Some [(1, 2); (2, 0); (3, 1)]) = Some [(0, 1); (0, 2); (0, 2); (0, 1)]
+  /\ get_subgraph [[1]; [0; 2]; [1; 3]; [2]] [3; 1; 2] None = Some [(0, 2); (1, 2); (1, 2); (0, 2)].
+Proof. split; [|split; reflexivity]. unfold bij_ren. simpl.
+  repeat split; try (repeat constructor; simpl; intuition congruence); intros k H; intuition (subst; auto with arith). Qed.
+
+(* ==== CouplingGraph.is_embedded_in ================================================================
+   The boolean (size test, degree pre-filter, brute force over it.permutations) is `true`
+   exactly when an injective edge-preserving vertex map exists. *)
+Theorem C20_embedded_iff : forall g h,
+  wf g -> sym g -> loopfree g -> nodup_adj g -> sym h -> nodup_adj h ->
+  (is_embedded_in g h = true <-> exists f, embedding g h f).
+Proof. exact is_embedded_in_spec. Qed.
+
+Example C20_embedded_nonvacuous :
+  is_embedded_in [[1]; [0; 2]; [1]] [[1; 3]; [0; 2]; [1; 3]; [2; 0]] = true      (* path in a 4-ring *)
+  /\ is_embedded_in [[1; 2]; [0; 2]; [0; 1]] [[1; 3]; [0; 2]; [1; 3]; [2; 0]] = false  (* no triangle *)
+  /\ embedding [[1]; [0; 2]; [1]] [[1; 3]; [0; 2]; [1; 3]; [2; 0]] [0; 1; 2].
+Proof. split; [reflexivity|split; [reflexivity|]]. unfold embedding. simpl.
+  split; [reflexivity|]. split; [repeat constructor; simpl; intuition congruence|].
+  split; [intros x H; intuition (subst; auto with arith)|].
+  intros a b Ha Hb. destruct a as [|[|[|a]]]; simpl in Hb; intuition (subst; simpl; auto); lia. Qed.
+
+(* ==== CouplingGraph.maximal_matching ===================================================================
+   For EVERY iteration order of the edge set (set order, shuffled or not): only admissible
+   non-loop edges, pairwise vertex-disjoint, no repetition, and maximal. *)
+Theorem C20_maximal_matching : forall order ignore,
+  let m := maximal_matching order ignore in
+  (forall e, In e m -> In e (admissible order ignore) /\ fst e <> snd e) /\
+  NoDup m /\ (forall e f, In e m -> In f m -> e <> f -> ~ touches e f) /\
+  (forall e, In e (admissible order ignore) -> fst e <> snd e -> exists f, In f m /\ touches e f).
+Proof. exact maximal_matching_spec. Qed.
+
+Example C20_maximal_matching_nonvacuous :
+  maximal_matching [(0, 1); (1, 2); (2, 3); (3, 4)] [(2, 1)] = [(2, 3); (0, 1)].
+Proof. reflexivity. Qed.
+
+(* ==== degrees, is_linear ==================================================================================== *)
+Theorem C20_degrees : forall g i, length (degrees g) = length g /\ nth i (degrees g) 0 = length (nbrs g i).
+Proof. exact degrees_spec. Qed.
+
+Theorem C20_is_linear_tests_degrees_only : forall g,
+  is_linear g = true <->
+  (2 <= length g /\ (forall d, In d (degrees g) -> 1 <= d <= 2)
+   /\ length (filter (Nat.eqb 1) (degrees g)) = 2).
+Proof. exact is_linear_spec. Qed.
+
+(* known finding C20-F6: "linearly connected" is claimed for a path next to a triangle *)
+Theorem C20_is_linear_refuted :
+  exists g, wf g /\ sym g /\ loopfree g /\ is_linear g = true /\ is_fully_connected g = Some false.
+Proof. exact is_linear_refuted. Qed.
+
+(* ==== UnitaryMatrix.otimes / ipower, UnitaryBuilder.apply_right / apply_left =====================================
+   Exact integer matrices (lists of rows over Z).  Index arithmetic of the Kronecker
+   product: entry (i*p+k, j*q+l) of A (x) B is A[i][j] * B[k][l], and every entry has that
+   form; otimes is the left-nested product; ipower is the iterated product (of the
+   transpose for negative exponents).  The operator applied by apply_right / apply_left,
+   defined entry-wise with mixed-radix indices (U on the location's digits, Kronecker
+   delta on the others), IS the explicit Kronecker product U (x) I resp. I (x) U when the
+   location is a prefix resp. suffix of the qudits (any radixes), and P^T (U (x) I) P for a
+   general (scattered, permuted) location. *)
+Theorem C20_kron : forall m n p q A B, zshape m n A -> zshape p q B ->
+  forall i j k l, i < m -> j < n -> k < p -> l < q ->
+  zget (kron A B) (i * p + k) (j * q + l) = (zget A i j * zget B k l)%Z.
+Proof. exact kron_entry. Qed.
+
+Theorem C20_kron_divmod : forall m n p q A B, zshape m n A -> zshape p q B -> 0 < p -> 0 < q ->
+  forall r c, r < m * p -> c < n * q ->
+  zget (kron A B) r c = (zget A (r / p) (c / q) * zget B (r mod p) (c mod q))%Z.
+Proof. exact kron_entry_divmod. Qed.
+
+Theorem C20_kron_shape : forall m n p q A B, zshape m n A -> zshape p q B -> zshape (m * p) (n * q) (kron A B).
+Proof. exact kron_shape. Qed.
+
+Theorem C20_kron_assoc : forall m n p q r s A B C, zshape m n A -> zshape p q B -> zshape r s C ->
+  kron (kron A B) C = kron A (kron B C).
+Proof. exact kron_assoc. Qed.
+
+Theorem C20_otimes_cons : forall A B Bs, otimes A (B :: Bs) = otimes (kron A B) Bs.
+Proof. exact otimes_cons. Qed.
+
+Theorem C20_otimes_nil : forall A, otimes A [] = A.
+Proof. exact otimes_nil. Qed.
+
+Theorem C20_mmul_entry : forall m n p A B, zshape m n A -> zshape n p B -> forall i j, i < m -> j < p ->
+  zget (mmul A B) i j = fold_right Z.add 0%Z (map (fun k => (zget A i k * zget B k j)%Z) (seq 0 n)).
+Proof. exact mmul_entry. Qed.
+
+Theorem C20_ipower_nonneg : forall A p, (0 <= p)%Z -> ipower A p = mpow A (Z.to_nat p).
+Proof. exact ipower_nonneg. Qed.
+
+Theorem C20_ipower_neg : forall A p, (p < 0)%Z -> ipower A p = mpow (transpose A) (Z.to_nat (- p)).
+Proof. exact ipower_neg. Qed.
+
+Theorem C20_mpow_S : forall A k, mpow A (S k) = mmul A (mpow A k).
+Proof. exact mpow_S. Qed.
+
+Theorem C20_kron_ident : forall a b, kron (ident a) (ident b) = ident (a * b).
+Proof. exact kron_ident. Qed.
+
+Theorem C20_apply_prefix_is_kron : forall r1 r2 U,
+  Forall (fun r => 0 < r) r1 -> Forall (fun r => 0 < r) r2 -> zshape (dim r1) (dim r1) U ->
+  embed (r1 ++ r2) (seq 0 (length r1)) U = kron U (ident (dim r2)).
+Proof. exact embed_prefix. Qed.
+
+Theorem C20_apply_suffix_is_kron : forall r1 r2 U,
+  Forall (fun r => 0 < r) r1 -> Forall (fun r => 0 < r) r2 -> zshape (dim r2) (dim r2) U ->
+  embed (r1 ++ r2) (seq (length r1) (length r2)) U = kron (ident (dim r1)) U.
+Proof. exact embed_suffix. Qed.
+
+(* arbitrary location (any duplicate-free in-range qudit list in any order, any positive
+   radixes): the applied operator is the Kronecker product U (x) I conjugated by the wire
+   permutation P that brings the location's qudits to the front *)
+Theorem C20_apply_general_is_kron : forall radixes loc U,
+  Forall (fun r => 0 < r) radixes -> NoDup loc -> (forall q, In q loc -> q < length radixes) ->
+  zshape (dim (map (fun q => nth q radixes 0) loc)) (dim (map (fun q => nth q radixes 0) loc)) U ->
+  let rest := filter (fun q => negb (mem q loc)) (seq 0 (length radixes)) in
+  let order := loc ++ rest in
+  let P := perm_matrix_mixed radixes order in
+  embed radixes loc U = mmul (transpose P) (mmul (kron U (ident (dim (map (fun q => nth q radixes 0) rest)))) P).
+Proof. exact embed_general. Qed.
+
+Example C20_kron_nonvacuous :
+  kron [[1; 2]; [3; 4]]%Z [[0; 1]; [1; 0]]%Z = [[0; 1; 0; 2]; [1; 0; 2; 0]; [0; 3; 0; 4]; [3; 0; 4; 0]]%Z
+  /\ ipower [[0; 1; 0]; [0; 0; 1]; [1; 0; 0]]%Z (-2) = [[0; 1; 0]; [0; 0; 1]; [1; 0; 0]]%Z
+  /\ embed [2; 3] [1] [[0; 0; 1]; [1; 0; 0]; [0; 1; 0]]%Z = kron (ident 2) [[0; 0; 1]; [1; 0; 0]; [0; 1; 0]]%Z.
+Proof. repeat split; reflexivity. Qed.
